@@ -55,7 +55,7 @@ def opt_target(st, t):
         if o.cls.startswith('ipr::Optional<') or o.cls.startswith('ipr::util::ref<'):
             if o.origin and o.origin[0] == 'copy':
                 return ('optional', o.origin[1])
-            p = o.fields.get('ptr')
+            p = o.fields.get(contracts.holder_field(o))
             if p == NULL:
                 return ('absent',)
             if isinstance(p, tuple) and p[0] == 'addr':
@@ -177,7 +177,7 @@ def run(ck, F):
                 st = State()
                 o = st.new_obj(cls)
                 opt = st.new_obj('ipr::Optional<ipr::Region>', origin=('ctor', ''))
-                st.heap[opt[1]].fields['ptr'] = ptr
+                st.heap[opt[1]].fields[F.role_field('ipr::Optional<ipr::Region>', lambda fl: True, 'held pointer')] = ptr
                 st.heap[o[1]].fields['parent'] = opt
                 outs = S.run(gfs[0], this=o, args=[], state=st)
                 res[label] = [v[1] if v and v[0] == 'k' else None for s, k, v in outs if k == 'return']
@@ -199,15 +199,15 @@ def run(ck, F):
     st, _k, v = outs[0]
     h = v[1]
     ho = st.heap[h[1]]
-    eh = ho.fields.get('eh')
-    blk = ho.fields.get('block')
+    eh = ho.fields.get(F.role_field('ipr::impl::Handler', lambda fl: 'eh_region' in fl['t'], 'region of the exception parameter'))
+    blk = ho.fields.get(F.role_field('ipr::impl::Handler', lambda fl: 'handler_block' in fl['t'], 'body of the handler'))
     good_eh = good_body = single = False
     if eh and eh[0] == 'obj' and blk and blk[0] == 'obj':
         eho = st.heap[eh[1]]
         par = eho.fields.get('parent')
         txt = contracts.render(par, st, {})
         # enclosing() of the guarded block: *this.lexical_region.parent.ptr
-        good_eh = isinstance(par, tuple) and par[0] == 'deref' and par[1] == ('fld', ('fld', ('fld', ('sym', 'this'), 'lexical_region'), 'parent'), 'ptr')
+        good_eh = isinstance(par, tuple) and par[0] == 'deref' and par[1] == ('fld', ('fld', ('fld', ('sym', 'this'), 'lexical_region'), 'parent'), F.role_field('ipr::Optional<ipr::Region>', lambda fl: True, 'held pointer'))
         lr = st.heap[blk[1]].fields.get('lexical_region')
         bpar = opt_target(st, st.heap[lr[1]].fields.get('parent')) if lr and lr[0] == 'obj' else None
         good_body = bpar == eh
@@ -265,7 +265,7 @@ def run(ck, F):
         acc = contracts.observe(S, F, st, root, names, accessor_filter=lambda n: n in ('parent_module', 'global_namespace'))
         ck.check(R_unit, f'Module::make_unit#{i}/parent', acc.get('parent_module') == '$this',
                  f'a module unit reports parent module `{acc.get("parent_module")}`', loc=mk['loc'], fn=mk['id'])
-        gns = st.heap[root[1]].fields.get('global_ns')
+        gns = st.heap[root[1]].fields.get(F.role_field(st.heap[root[1]].cls, lambda fl: fl['t'] == 'ipr::impl::Namespace', 'global namespace of the unit', inherited=True))
         good = False
         what = 'no global namespace member'
         if gns and gns[0] == 'obj':
